@@ -237,7 +237,7 @@ func (fr *frame) execInstr(in ssa.Instruction, st *State) {
 		fr.zeroInit(st, r, et)
 		fr.vals[x] = r
 		if !escapes(x) {
-			c.stable = append(c.stable, stableCell{addr: r, typ: et})
+			c.stable = append(c.stable, stableCell{addr: r, typ: et, stores: storesTo(x)})
 		}
 	case *ssa.UnOp:
 		fr.execUnOp(x, st)
@@ -954,8 +954,10 @@ func (fr *frame) hashable(st *State, k T, kt types.Type, pos token.Pos) {
 	c.oblige(st, "unhashable-key", "map key of dynamic type", Or(IsNilIface(k), app("Bool", "hashableT", ITyp(k))), pos)
 }
 
-// escapes reports whether the address of an Alloc can reach a callee or the
-// heap (anything but direct loads, stores to it, and field/index addressing).
+// escapes reports whether the address of an Alloc (or captured variable) can
+// reach a callee or the heap: anything but direct loads, stores to it,
+// field/index addressing, and capture by a closure that itself only does
+// those things.
 func escapes(a ssa.Value) bool {
 	refs := a.Referrers()
 	if refs == nil {
@@ -979,10 +981,49 @@ func escapes(a ssa.Value) bool {
 			if escapes(x) {
 				return true
 			}
+		case *ssa.MakeClosure:
+			fn := x.Fn.(*ssa.Function)
+			for i, b := range x.Bindings {
+				if b == a && i < len(fn.FreeVars) {
+					if escapes(fn.FreeVars[i]) {
+						return true
+					}
+				}
+			}
 		case *ssa.DebugRef:
 		default:
 			return true
 		}
 	}
 	return false
+}
+
+// storesTo lists the store instructions that write the cell (or a part of
+// it), including those inside closures that capture it.
+func storesTo(a ssa.Value) []ssa.Instruction {
+	var out []ssa.Instruction
+	refs := a.Referrers()
+	if refs == nil {
+		return nil
+	}
+	for _, in := range *refs {
+		switch x := in.(type) {
+		case *ssa.Store:
+			if x.Addr == a {
+				out = append(out, x)
+			}
+		case *ssa.FieldAddr:
+			out = append(out, storesTo(x)...)
+		case *ssa.IndexAddr:
+			out = append(out, storesTo(x)...)
+		case *ssa.MakeClosure:
+			fn := x.Fn.(*ssa.Function)
+			for i, b := range x.Bindings {
+				if b == a && i < len(fn.FreeVars) {
+					out = append(out, storesTo(fn.FreeVars[i])...)
+				}
+			}
+		}
+	}
+	return out
 }
